@@ -16,6 +16,8 @@ from nutree import Tree, TypedTree, UniqueConstraintError
 
 ID = "C03"
 LEVEL = "exploration"
+TECHNIQUE = 'stateful property-based testing + collision-directed generation over every API route; documents built without nutree'
+LEVEL_TEXT = 'exploration: the invariant is checked after every step of random histories, and for each generated state one colliding operation per API route (17 routes) is constructed by the harness and must be refused with UniqueConstraintError; evidence lists the count per route'
 RULE = (
     "part histories: op histories as in C01 (small alphabet, so collisions are frequent); after every step all child "
     "lists incl. the root's have pairwise distinct data_ids, and every op that the harness (not nutree) computes to "
